@@ -1582,7 +1582,7 @@ class _Gen:
                 out.append(self.gen(s.get("additionalItems", True), depth - 1))
             return out
         if hi is not None and lo > hi: raise Unsat("empty array length range")
-        if mode == "min" or depth <= 0: n = lo
+        if mode in ("min", "empty_present") or depth <= 0: n = lo
         elif mode == "max": n = hi if hi is not None else lo + 3
         else: n = rng.randint(lo, min(hi, lo + 3) if hi is not None else lo + 3)
         if it is None: it = True
@@ -1612,13 +1612,13 @@ class _Gen:
             if k in out: continue
             if mode in ("min", "all_omitted") or depth <= 0: continue
             if self.H.h(ps) >= max(depth, 1) and self.H.h(ps) > 0: continue
-            if mode in ("max", "all_present") or self.coin(0.6):
+            if mode in ("max", "all_present", "empty_present") or self.coin(0.6):
                 try: out[k] = self.gen(ps, depth - 1)
                 except Unsat: pass
         ap = s.get("additionalProperties")
         minp, maxp = s.get("minProperties", 0), s.get("maxProperties")
         want = 0
-        if isinstance(ap, dict) and not (depth <= 0 or mode in ("min", "all_omitted")):
+        if isinstance(ap, dict) and not (depth <= 0 or mode in ("min", "all_omitted", "empty_present")):
             want = 3 if mode == "max" else rng.randint(0, 3)
             if self.H.h(ap) >= INF: want = 0
         want = max(want, minp - len(out))
@@ -1669,14 +1669,15 @@ def gen_valid(rng, doc, schema, depth=3, mode="random"):
     raise Unsat("generated instances failed the self check" if last is None else str(last))
 
 
-BOUNDARY_MODES = ["min", "max", "all_omitted", "all_present", "multibyte"]
+BOUNDARY_MODES = ["min", "max", "all_omitted", "all_present", "multibyte", "empty_present"]
 
 
 def gen_boundary(rng, doc, schema, depth=3, float_ints=False):
     """Boundary instances, all valid: [(value, label)] with labels
     min (shortest strings incl. multi-byte, lower integer edges, empty containers, optionals omitted),
     max (longest strings built from multi-byte scalars so chars != bytes, upper integer edges,
-    full containers, every optional present), all_omitted, all_present, multibyte.
+    full containers, every optional present), all_omitted, all_present, multibyte, empty_present (every optional member
+    present, every array / map as short as its schema allows: an explicitly empty container is not an absent one).
     float_ints adds a copy of `max` whose integers are written as integer-valued floats (1.0),
     which draft-07 counts as integers."""
     out, seen = [], set()
